@@ -516,9 +516,10 @@ def rule_wait_loops(ctx, rid, V):
                 if s.op == "load" and s.aty == "usize" and not on_field(s, R.gen):
                     continue
                 other.append("%s %s (%s)" % (s.op, s.aty, s.sp.split("/")[-1]))
-            ctx.check(r.id not in rd and not other, rid, "wait-loop:%s@%s" % (T.split("::")[-1], keyname(r.name).split("::")[-1]),
-                      "the wait loop is on the writer side and polls only the reader slots", nr.term(min(comp))["sp"],
-                      {"in_read_path": r.id in rd, "other_atomic_accesses_in_loop": other})
+            polls = bool(sample_blocks(F, nr, R) & set(comp))
+            ctx.check(r.id not in rd and not other and polls, rid, "wait-loop:%s@%s" % (T.split("::")[-1], keyname(r.name).split("::")[-1]),
+                      "the wait loop is on the writer side, samples the reader slots on every round and polls nothing else", nr.term(min(comp))["sp"],
+                      {"in_read_path": r.id in rd, "other_atomic_accesses_in_loop": other, "samples_slots_inside_the_loop": polls})
 
 
 def rule_generation_flip(ctx, rid, V):
@@ -537,6 +538,10 @@ def rule_generation_flip(ctx, rid, V):
             region |= comp
     okk = len(flips) == 1
     why = {"generation_writes_in_store": [x.sp for x in flips]}
+    if okk and flips[0].op in ("fetch_add", "fetch_sub", "fetch_xor"):
+        amt = [fold(e) for e in flow(nm).term_arg(flips[0].bb, 1)]
+        odd = bool(amt) and all(isinstance(a, int) and a % 2 == 1 for a in amt)
+        ctx.check(odd, rid, "flip-amount:%s" % key, "the generation changes by an odd constant (so `generation %% %d` really switches slots)" % R.n, flips[0].sp, amt)
     if okk:
         fb = flips[0].bb
         after_swap = s.bb in dom[fb] and s.bb != fb
@@ -554,3 +559,208 @@ def rule_generation_flip(ctx, rid, V):
         w = [x for x in sites(F, nr) if on_field(x, R.gen) and x.op not in ("load",)]
         ctx.check(not w, rid, "no-flip-outside-store:%s@%s" % (key, keyname(r.name).split("::")[-1]), "%s does not modify the generation" % keyname(r.name).split("::")[-1], r.span,
                   {"writes": [x.sp for x in w], "why": "readers diverted before the idle slot was recorded fill it again; with overlapping deliveries it is never seen empty and the writer spins forever"})
+
+
+def rule_seen_flags(ctx, rid, V):
+    """the bookkeeping of the wait starts from "nothing seen": every bool array (or bool) that the swapping writer initialises with
+    constants and then lends out mutably — the per-slot "seen idle" flags — starts all-false. (Flags that start true end the wait before
+    any slot was looked at.)"""
+    F = ctx.F; T = V.T
+    m, nm, s = V.swapper()
+    fl = flow(nm)
+    mutb = set()
+    for bl in nm.blocks:
+        for st in bl["s"]:
+            if st["k"] == "assign" and st["r"]["k"] in ("ref", "rawptr") and st["r"].get("m") not in ("shared", "Const", "const") \
+                    and not any(p["k"] == "deref" for p in st["r"]["p"]["p"]):
+                mutb.add(st["r"]["p"]["l"])
+    n = 0; bad = []
+    for bb, bl in enumerate(nm.blocks):
+        if bl.get("dead") or bl.get("cleanup"):
+            continue
+        for si, st in enumerate(bl["s"]):
+            if st["k"] != "assign" or st["l"]["p"] or st["l"]["l"] not in mutb:
+                continue
+            ty = nm.local_ty(st["l"]["l"])
+            if not re.match(r"^\[bool; \d+\]$", ty) and not (ty.startswith(MOD) and "bool" in str(_adt_field_types(F, ty))):
+                continue
+            r = st["r"]
+            vals = None
+            if r["k"] == "repeat":
+                vals = [fold(e) for e in fl.operand(r["o"], (bb, si))]
+            elif r["k"] == "aggregate":
+                vals = []
+                for o in r["ops"]:
+                    for e in fl.operand(o, (bb, si)):
+                        e = deep_strip(e)
+                        if e[0] == "repeat":
+                            vals.append(fold(e[1]))
+                        elif e[0] == "agg":
+                            vals += [fold(x) for x in e[2]]
+                        else:
+                            vals.append(fold(e))
+            if vals is None:
+                continue
+            n += 1
+            if not vals or any(v != 0 for v in vals):
+                bad.append({"where": st["sp"], "initial": vals})
+    ctx.check(not bad, rid, "seen-flags-start-false:%s" % T.split("::")[-1],
+              "the 'slot seen idle' flags of the wait start false (%d initialisation site(s) in the swapping writer)" % n, m.span, bad)
+
+
+def _adt_field_types(F, ty):
+    try:
+        a = F.adt(re.sub(r"<.*$", "", ty))
+        return [f["ty"] for v in a["variants"] for f in v["fields"]]
+    except AnchorLost:
+        return []
+
+
+def swap_frees(F, nm, s):
+    """blocks of nm in which the box made from the pointer returned by the swap `s` is freed: [(bb, terminator)]"""
+    fl = flow(nm)
+    raws = call_sites(F, nm, lambda c: c.defp == "alloc::boxed::Box::<T>::from_raw")
+    raws = [(bb, t, c) for (bb, t, c) in raws if any(mentions(e, lambda x: x[0] == "call" and x[1] == s.bb) for e in fl.term_arg(bb, 0))]
+    frees = []
+    for (rb, rt, rc) in raws:
+        mine = []
+        for bb, bl in enumerate(nm.blocks):
+            if bl["cleanup"] or bl.get("dead"):
+                continue
+            t = bl["t"]
+            if t["k"] == "drop" and "alloc::boxed::Box<" in t["ty"]:
+                if any(mentions(e, lambda x: x[0] == "call" and x[1] == rb) for e in fl.term_place(bb, t["p"])):
+                    mine.append((bb, t))
+            if t["k"] == "call" and (t.get("def") or "") == "core::mem::drop" and t["args"]:
+                if any(mentions(e, lambda x: x[0] == "call" and x[1] == rb) for e in fl.term_arg(bb, 0)):
+                    mine.append((bb, t))
+        if not mine:
+            mine.append((rb, rt))
+        frees += mine
+    return frees
+
+
+def _flag_read(nm, fl, flagged, local, at, depth=0):
+    """is `local` at `at` a bool read from the wait's bookkeeping storage (through a pointer, or an element/field of a flagged local)?
+    returns +1 (the flag itself), -1 (its negation) or None"""
+    if depth > 4 or nm.local_ty(local) != "bool":
+        return None
+    pol = set()
+    for site in fl.reaching(local, at):
+        if site[0] == "entry":
+            return None
+        sb, si = site
+        bl = nm.blocks[sb]
+        if si >= len(bl["s"]):
+            return None
+        st = bl["s"][si]
+        if st["k"] != "assign" or st["l"]["p"]:
+            return None
+        r = st["r"]
+        if r["k"] == "use" and r["o"]["k"] in ("copy", "move"):
+            pl = r["o"]["p"]
+            if any(p["k"] == "deref" for p in pl["p"]) or (pl["p"] and pl["l"] in flagged):
+                pol.add(1)
+            elif not pl["p"]:
+                x = _flag_read(nm, fl, flagged, pl["l"], (sb, si), depth + 1)
+                if x is None:
+                    return None
+                pol.add(x)
+            else:
+                return None
+        elif r["k"] == "unop" and r.get("op") == "Not" and r["a"]["k"] in ("copy", "move") and not r["a"]["p"]["p"]:
+            x = _flag_read(nm, fl, flagged, r["a"]["p"]["l"], (sb, si), depth + 1)
+            if x is None:
+                return None
+            pol.add(-x)
+        else:
+            return None
+    return pol.pop() if len(pol) == 1 else None
+
+
+def rule_exit_needs_all(ctx, rid, V):
+    """a slot flag found *false* sends the writer back to sampling: from the false outcome of every test of a "seen idle" flag, the free of
+    the old snapshot is not reachable within the same round of the wait (without entering the wait loop's head again or sampling a slot).
+    `while !seen.all()` has this shape, `while !seen.any()` (leave as soon as one slot was idle) does not. Paths through a branch on a
+    variable that merges several values are not used as witnesses (path-insensitive merge: no verdict from them)."""
+    F = ctx.F; R = V.R; T = V.T
+    m, nm0, s0 = V.swapper()
+    nm = inline.cached(F, m, tag="full-hof", hof=True, thread=True)
+    sw = [x for x in sites(F, nm) if x.op == "swap" and on_field(x, R.ptr)]
+    if len(sw) != 1:
+        raise AnchorLost("HalfLock<%s>: the swap of the snapshot pointer in the normal form with combinators opened" % T)
+    s = sw[0]
+    frees = {bb for bb, t in swap_frees(F, nm, s)}
+    samples = sample_blocks(F, nm, R)
+    for (sl, c) in slot_loads(F, nm, R):
+        samples.add(sl.bb)
+    if not frees or not samples:
+        raise AnchorLost("HalfLock<%s>: free of the old snapshot / sampling of the reader slots in the normal form with combinators opened" % T)
+    preds = nm.preds(unwind=False)
+    heads = set()
+    for comp in cfg.cycles(nm, unwind=False):
+        if comp & samples:
+            heads |= {b for b in comp if any(p not in comp for p in preds[b])}
+    fl = flow(nm)
+    flagged = set()
+    for bl in nm.blocks:
+        for st in bl["s"]:
+            if st["k"] == "assign" and st["r"]["k"] in ("ref", "rawptr") and st["r"].get("m") not in ("shared", "Const", "const") \
+                    and not any(p["k"] == "deref" for p in st["r"]["p"]["p"]):
+                ty = nm.local_ty(st["r"]["p"]["l"])
+                if re.match(r"^\[bool; \d+\]$", ty) or (ty.startswith(MOD) and "bool" in str(_adt_field_types(F, ty))):
+                    flagged.add(st["r"]["p"]["l"])
+    after = cfg.reachable_after(nm, s.bb, unwind=False)
+    tests = []; merges = set()
+    for b in sorted(after):
+        bl = nm.blocks[b]
+        t = bl["t"]
+        if t["k"] != "switch" or bl.get("dead") or bl.get("cleanup"):
+            continue
+        d = t["d"]
+        if d.get("k") not in ("copy", "move") or d["p"]["p"]:
+            continue
+        at = (b, len(bl["s"]))
+        pol = _flag_read(nm, fl, flagged, d["p"]["l"], at)
+        if pol is not None:
+            zero = [tg for v, tg in t["vals"] if v == 0]
+            ft = (zero[0] if zero else None) if pol == 1 else (t["else"] if zero else None)
+            if ft is not None:
+                tests.append((b, ft))
+            continue
+        # a merge of several values decided here: no witness may run through it
+        loc = d["p"]["l"]
+        srcs = set(fl.reaching(loc, at))
+        for _ in range(6):
+            if len(srcs) != 1:
+                break
+            site = next(iter(srcs))
+            if site[0] == "entry" or site[1] >= len(nm.blocks[site[0]]["s"]):
+                break
+            st = nm.blocks[site[0]]["s"][site[1]]
+            if st["k"] != "assign":
+                break
+            r_ = st["r"]
+            if r_["k"] == "discr" and not r_["p"]["p"]:
+                srcs = set(fl.reaching(r_["p"]["l"], site))
+            elif r_["k"] == "use" and r_["o"]["k"] in ("copy", "move") and not r_["o"]["p"]["p"]:
+                srcs = set(fl.reaching(r_["o"]["p"]["l"], site))
+            elif r_["k"] == "unop" and r_["a"]["k"] in ("copy", "move") and not r_["a"]["p"]["p"]:
+                srcs = set(fl.reaching(r_["a"]["p"]["l"], site))
+            else:
+                break
+        if len(srcs) > 1:
+            merges.add(b)
+    bad = []
+    for (b, ft) in tests:
+        avoid = heads | samples | merges
+        if ft in avoid:
+            continue
+        r = cfg.reachable(nm, ft, avoid=avoid, unwind=False)
+        hit = sorted(r & frees)
+        if hit:
+            bad.append({"flag_test": nm.term(b)["sp"], "free": nm.term(hit[0])["sp"],
+                        "path": [nm.term(x)["sp"].split("/")[-1] for x in (cfg.path(nm, ft, hit[0], avoid=avoid, unwind=False) or [])][:12]})
+    ctx.check(not bad, rid, "idle-flag-false-keeps-waiting:%s" % T.split("::")[-1],
+              "a reader slot not yet seen idle keeps the writer waiting: from the false outcome of each of the %d test(s) of a seen-idle flag the old "
+              "snapshot's free is out of reach until the slots are sampled again" % len(tests), m.span, bad)
